@@ -959,6 +959,14 @@ impl Mon {
                 *len as u64,
             ));
         }
+        // a membership change may remove and re-add a peer in one step: the new Progress has the configured window
+        if let CallKind::ApplyConf = kind {
+            for p in &post.prs {
+                if p.ins_count == 0 && p.matched == 0 {
+                    self.b.nb[ni].caps.remove(&p.id);
+                }
+            }
+        }
         // progress objects that disappeared lose their capacity model
         if post.role == StateRole::Leader {
             let ids: HashSet<u64> = post.prs.iter().map(|p| p.id).collect();
